@@ -617,7 +617,7 @@ def _chart_font_name(prs, m, tmp):
 # label) must not hand the second caller the first caller's string. m is paired with twin(m); for strings without
 # cased letters the swap-case twin equals m (sharing one stored copy is fine, both must still read m).
 
-TWINS = {"swapcase": lambda m: m.swapcase(), "blank": lambda m: m + " "}
+TWINS = {"swapcase": lambda m: m.swapcase(), "blank": lambda m: m + " ", "slash": lambda m: m + "/"}
 
 
 def _twin_hyperlinks(how, first, second):
